@@ -130,6 +130,7 @@ inductive Pred
   | suffix_ (s : String)
   | contains_ (s : String)
   | const (b : Bool)
+  | anyOf (ws : List Val)          -- an or-pattern of literals (`1 | 2`)
   deriving Repr, Inhabited
 
 def valLen (v : Val) : Option Nat :=
@@ -152,6 +153,7 @@ def Pred.holds (p : Pred) (v : Val) : Bool :=
   | .suffix_ s => match v.autoDeref with | .str t => t.endsWith s | _ => false
   | .contains_ s => match v.autoDeref with | .str t => isInfixOf s.toList t.toList | _ => false
   | .const b => b
+  | .anyOf ws => ws.any fun w => valEq v w
 
 def readPred : SExp → Option Pred
   | .list [.atom "cmp", .atom op, v] => do pure (.cmp (← readCmp op) (← readVal v))
@@ -160,6 +162,7 @@ def readPred : SExp → Option Pred
   | .list [.atom "suffix", .atom h] => (unhex h).map .suffix_
   | .list [.atom "contains", .atom h] => (unhex h).map .contains_
   | .list [.atom "const", .atom b] => (readBool b).map .const
+  | .list (.atom "anyof" :: vs) => (vs.mapM readVal).map .anyOf
   | _ => none
 
 /-- What the generator says its user expressions mean. -/
@@ -212,7 +215,9 @@ def rustPrims (m : Meanings) : Prims where
   debug := debugVal
   lit e v := match m.vals.lookup (squash e.text) with
     | some w => valEq v w
-    | none => false
+    | none => match m.preds.lookup (squash e.text) with
+      | some p => p.holds v          -- a simple pattern that is not one literal (an or-pattern)
+      | none => false
   strLit s v := valEq v (.str s)
   cmp op v e := match m.vals.lookup (squash e.text) with
     | some w => cmpHolds op v w
